@@ -52,6 +52,7 @@ type VC struct {
 	axiomsUsed   []string
 	coverIdx     int
 	mods         map[*ssa.BasicBlock]map[string]bool // loop header -> components written in the loop (from the discovery pass)
+	guardTab     map[string]*guardedType
 }
 
 func newVC(w *World, fn *ssa.Function, spec *FuncSpec) *VC {
@@ -198,6 +199,10 @@ func memInv(key, sort, term, alloc string) string {
 
 type State struct {
 	m map[string]string
+	// concurrent mode: the state old() refers to on the paths leading here (the state at the last acquisition);
+	// nil = the function's entry state
+	old     *State
+	rebound bool // this state is such an old-state snapshot
 }
 
 func newState() *State { return &State{m: map[string]string{}} }
@@ -207,6 +212,8 @@ func (s *State) clone() *State {
 	for k, v := range s.m {
 		n.m[k] = v
 	}
+	n.old = s.old
+	n.rebound = s.rebound
 	return n
 }
 
@@ -378,6 +385,8 @@ type Exec struct {
 	loopEntry  map[*Loop]*State // state on entry to each loop (before the havoc), for lold()
 	heldEntry  string           // HELD at function entry (from the lock clauses)
 	heldEmitted bool
+	acqCount   int
+	curMuOwner string // type key of the struct whose mutex field is being locked/unlocked ("" = not a field)
 }
 
 func (vc *VC) newExec(fn *ssa.Function, ts TSubst, parent *Exec) *Exec {
@@ -531,7 +540,54 @@ func (ex *Exec) mergeStates(edges []edge) *State {
 		}
 		st.m[k] = ex.vc.define("j_"+k, srt, term)
 	}
+	var olds []*State
+	var conds []string
+	for _, e := range edges {
+		olds = append(olds, ex.out[e.from].old)
+		conds = append(conds, e.cond)
+	}
+	st.old = ex.mergeOlds(olds, conds)
 	return st
+}
+
+// mergeOlds: the old-state at a join (concurrent mode).
+func (ex *Exec) mergeOlds(olds []*State, conds []string) *State {
+	same := true
+	for _, o := range olds[1:] {
+		if o != olds[0] {
+			same = false
+		}
+	}
+	if same {
+		return olds[0]
+	}
+	top := ex.topExec()
+	get := func(o *State) *State {
+		if o == nil {
+			return top.entry
+		}
+		return o
+	}
+	keys := map[string]bool{}
+	for _, o := range olds {
+		for k := range get(o).m {
+			keys[k] = true
+		}
+	}
+	ns := newState()
+	ns.rebound = true
+	for _, k := range sortedKeys(keys) {
+		srt := ex.vc.compSort[k]
+		if srt == "" {
+			continue
+		}
+		term := ex.get(get(olds[len(olds)-1]), k, srt)
+		for i := len(olds) - 2; i >= 0; i-- {
+			term = sIte(conds[i], ex.get(get(olds[i]), k, srt), term)
+		}
+		ns.m[k] = ex.vc.define("jo_"+k, srt, term)
+	}
+	return ns
 }
 
 func (ex *Exec) mergeVals(edges []edge, get func(e edge) string, sort string, base string) string {
@@ -946,6 +1002,7 @@ func (ex *Exec) instr(ins ssa.Instruction) {
 		for _, r := range i.Results {
 			vs = append(vs, ex.val(r))
 		}
+		ex.escapeCheck(i.Results, i.Pos())
 		ex.rets = append(ex.rets, retInfo{reach: ex.curReach, vals: vs, st: ex.curState.clone(), pos: i.Pos()})
 	case *ssa.Panic:
 		if ex.panicsWhen != "" {
